@@ -94,51 +94,9 @@ theories/Valid/Normalize.vos theories/Valid/Normalize.vok theories/Valid/Normali
 theories/Valid/Calendar.vo theories/Valid/Calendar.glob theories/Valid/Calendar.v.beautified theories/Valid/Calendar.required_vo: theories/Valid/Calendar.v theories/Base/Prelude.vo theories/Valid/Gate.vo theories/Valid/Normalize.vo
 theories/Valid/Calendar.vio: theories/Valid/Calendar.v theories/Base/Prelude.vio theories/Valid/Gate.vio theories/Valid/Normalize.vio
 theories/Valid/Calendar.vos theories/Valid/Calendar.vok theories/Valid/Calendar.required_vos: theories/Valid/Calendar.v theories/Base/Prelude.vos theories/Valid/Gate.vos theories/Valid/Normalize.vos
-theories/Valid/Cal/Chunk00.vo theories/Valid/Cal/Chunk00.glob theories/Valid/Cal/Chunk00.v.beautified theories/Valid/Cal/Chunk00.required_vo: theories/Valid/Cal/Chunk00.v theories/Base/Prelude.vo theories/Valid/Normalize.vo theories/Valid/Calendar.vo
-theories/Valid/Cal/Chunk00.vio: theories/Valid/Cal/Chunk00.v theories/Base/Prelude.vio theories/Valid/Normalize.vio theories/Valid/Calendar.vio
-theories/Valid/Cal/Chunk00.vos theories/Valid/Cal/Chunk00.vok theories/Valid/Cal/Chunk00.required_vos: theories/Valid/Cal/Chunk00.v theories/Base/Prelude.vos theories/Valid/Normalize.vos theories/Valid/Calendar.vos
-theories/Valid/Cal/Chunk01.vo theories/Valid/Cal/Chunk01.glob theories/Valid/Cal/Chunk01.v.beautified theories/Valid/Cal/Chunk01.required_vo: theories/Valid/Cal/Chunk01.v theories/Base/Prelude.vo theories/Valid/Normalize.vo theories/Valid/Calendar.vo
-theories/Valid/Cal/Chunk01.vio: theories/Valid/Cal/Chunk01.v theories/Base/Prelude.vio theories/Valid/Normalize.vio theories/Valid/Calendar.vio
-theories/Valid/Cal/Chunk01.vos theories/Valid/Cal/Chunk01.vok theories/Valid/Cal/Chunk01.required_vos: theories/Valid/Cal/Chunk01.v theories/Base/Prelude.vos theories/Valid/Normalize.vos theories/Valid/Calendar.vos
-theories/Valid/Cal/Chunk02.vo theories/Valid/Cal/Chunk02.glob theories/Valid/Cal/Chunk02.v.beautified theories/Valid/Cal/Chunk02.required_vo: theories/Valid/Cal/Chunk02.v theories/Base/Prelude.vo theories/Valid/Normalize.vo theories/Valid/Calendar.vo
-theories/Valid/Cal/Chunk02.vio: theories/Valid/Cal/Chunk02.v theories/Base/Prelude.vio theories/Valid/Normalize.vio theories/Valid/Calendar.vio
-theories/Valid/Cal/Chunk02.vos theories/Valid/Cal/Chunk02.vok theories/Valid/Cal/Chunk02.required_vos: theories/Valid/Cal/Chunk02.v theories/Base/Prelude.vos theories/Valid/Normalize.vos theories/Valid/Calendar.vos
-theories/Valid/Cal/Chunk03.vo theories/Valid/Cal/Chunk03.glob theories/Valid/Cal/Chunk03.v.beautified theories/Valid/Cal/Chunk03.required_vo: theories/Valid/Cal/Chunk03.v theories/Base/Prelude.vo theories/Valid/Normalize.vo theories/Valid/Calendar.vo
-theories/Valid/Cal/Chunk03.vio: theories/Valid/Cal/Chunk03.v theories/Base/Prelude.vio theories/Valid/Normalize.vio theories/Valid/Calendar.vio
-theories/Valid/Cal/Chunk03.vos theories/Valid/Cal/Chunk03.vok theories/Valid/Cal/Chunk03.required_vos: theories/Valid/Cal/Chunk03.v theories/Base/Prelude.vos theories/Valid/Normalize.vos theories/Valid/Calendar.vos
-theories/Valid/Cal/Chunk04.vo theories/Valid/Cal/Chunk04.glob theories/Valid/Cal/Chunk04.v.beautified theories/Valid/Cal/Chunk04.required_vo: theories/Valid/Cal/Chunk04.v theories/Base/Prelude.vo theories/Valid/Normalize.vo theories/Valid/Calendar.vo
-theories/Valid/Cal/Chunk04.vio: theories/Valid/Cal/Chunk04.v theories/Base/Prelude.vio theories/Valid/Normalize.vio theories/Valid/Calendar.vio
-theories/Valid/Cal/Chunk04.vos theories/Valid/Cal/Chunk04.vok theories/Valid/Cal/Chunk04.required_vos: theories/Valid/Cal/Chunk04.v theories/Base/Prelude.vos theories/Valid/Normalize.vos theories/Valid/Calendar.vos
-theories/Valid/Cal/Chunk05.vo theories/Valid/Cal/Chunk05.glob theories/Valid/Cal/Chunk05.v.beautified theories/Valid/Cal/Chunk05.required_vo: theories/Valid/Cal/Chunk05.v theories/Base/Prelude.vo theories/Valid/Normalize.vo theories/Valid/Calendar.vo
-theories/Valid/Cal/Chunk05.vio: theories/Valid/Cal/Chunk05.v theories/Base/Prelude.vio theories/Valid/Normalize.vio theories/Valid/Calendar.vio
-theories/Valid/Cal/Chunk05.vos theories/Valid/Cal/Chunk05.vok theories/Valid/Cal/Chunk05.required_vos: theories/Valid/Cal/Chunk05.v theories/Base/Prelude.vos theories/Valid/Normalize.vos theories/Valid/Calendar.vos
-theories/Valid/Cal/Chunk06.vo theories/Valid/Cal/Chunk06.glob theories/Valid/Cal/Chunk06.v.beautified theories/Valid/Cal/Chunk06.required_vo: theories/Valid/Cal/Chunk06.v theories/Base/Prelude.vo theories/Valid/Normalize.vo theories/Valid/Calendar.vo
-theories/Valid/Cal/Chunk06.vio: theories/Valid/Cal/Chunk06.v theories/Base/Prelude.vio theories/Valid/Normalize.vio theories/Valid/Calendar.vio
-theories/Valid/Cal/Chunk06.vos theories/Valid/Cal/Chunk06.vok theories/Valid/Cal/Chunk06.required_vos: theories/Valid/Cal/Chunk06.v theories/Base/Prelude.vos theories/Valid/Normalize.vos theories/Valid/Calendar.vos
-theories/Valid/Cal/Chunk07.vo theories/Valid/Cal/Chunk07.glob theories/Valid/Cal/Chunk07.v.beautified theories/Valid/Cal/Chunk07.required_vo: theories/Valid/Cal/Chunk07.v theories/Base/Prelude.vo theories/Valid/Normalize.vo theories/Valid/Calendar.vo
-theories/Valid/Cal/Chunk07.vio: theories/Valid/Cal/Chunk07.v theories/Base/Prelude.vio theories/Valid/Normalize.vio theories/Valid/Calendar.vio
-theories/Valid/Cal/Chunk07.vos theories/Valid/Cal/Chunk07.vok theories/Valid/Cal/Chunk07.required_vos: theories/Valid/Cal/Chunk07.v theories/Base/Prelude.vos theories/Valid/Normalize.vos theories/Valid/Calendar.vos
-theories/Valid/Cal/Chunk08.vo theories/Valid/Cal/Chunk08.glob theories/Valid/Cal/Chunk08.v.beautified theories/Valid/Cal/Chunk08.required_vo: theories/Valid/Cal/Chunk08.v theories/Base/Prelude.vo theories/Valid/Normalize.vo theories/Valid/Calendar.vo
-theories/Valid/Cal/Chunk08.vio: theories/Valid/Cal/Chunk08.v theories/Base/Prelude.vio theories/Valid/Normalize.vio theories/Valid/Calendar.vio
-theories/Valid/Cal/Chunk08.vos theories/Valid/Cal/Chunk08.vok theories/Valid/Cal/Chunk08.required_vos: theories/Valid/Cal/Chunk08.v theories/Base/Prelude.vos theories/Valid/Normalize.vos theories/Valid/Calendar.vos
-theories/Valid/Cal/Chunk09.vo theories/Valid/Cal/Chunk09.glob theories/Valid/Cal/Chunk09.v.beautified theories/Valid/Cal/Chunk09.required_vo: theories/Valid/Cal/Chunk09.v theories/Base/Prelude.vo theories/Valid/Normalize.vo theories/Valid/Calendar.vo
-theories/Valid/Cal/Chunk09.vio: theories/Valid/Cal/Chunk09.v theories/Base/Prelude.vio theories/Valid/Normalize.vio theories/Valid/Calendar.vio
-theories/Valid/Cal/Chunk09.vos theories/Valid/Cal/Chunk09.vok theories/Valid/Cal/Chunk09.required_vos: theories/Valid/Cal/Chunk09.v theories/Base/Prelude.vos theories/Valid/Normalize.vos theories/Valid/Calendar.vos
-theories/Valid/Cal/Chunk10.vo theories/Valid/Cal/Chunk10.glob theories/Valid/Cal/Chunk10.v.beautified theories/Valid/Cal/Chunk10.required_vo: theories/Valid/Cal/Chunk10.v theories/Base/Prelude.vo theories/Valid/Normalize.vo theories/Valid/Calendar.vo
-theories/Valid/Cal/Chunk10.vio: theories/Valid/Cal/Chunk10.v theories/Base/Prelude.vio theories/Valid/Normalize.vio theories/Valid/Calendar.vio
-theories/Valid/Cal/Chunk10.vos theories/Valid/Cal/Chunk10.vok theories/Valid/Cal/Chunk10.required_vos: theories/Valid/Cal/Chunk10.v theories/Base/Prelude.vos theories/Valid/Normalize.vos theories/Valid/Calendar.vos
-theories/Valid/Cal/Chunk11.vo theories/Valid/Cal/Chunk11.glob theories/Valid/Cal/Chunk11.v.beautified theories/Valid/Cal/Chunk11.required_vo: theories/Valid/Cal/Chunk11.v theories/Base/Prelude.vo theories/Valid/Normalize.vo theories/Valid/Calendar.vo
-theories/Valid/Cal/Chunk11.vio: theories/Valid/Cal/Chunk11.v theories/Base/Prelude.vio theories/Valid/Normalize.vio theories/Valid/Calendar.vio
-theories/Valid/Cal/Chunk11.vos theories/Valid/Cal/Chunk11.vok theories/Valid/Cal/Chunk11.required_vos: theories/Valid/Cal/Chunk11.v theories/Base/Prelude.vos theories/Valid/Normalize.vos theories/Valid/Calendar.vos
-theories/Valid/Cal/Chunk12.vo theories/Valid/Cal/Chunk12.glob theories/Valid/Cal/Chunk12.v.beautified theories/Valid/Cal/Chunk12.required_vo: theories/Valid/Cal/Chunk12.v theories/Base/Prelude.vo theories/Valid/Normalize.vo theories/Valid/Calendar.vo
-theories/Valid/Cal/Chunk12.vio: theories/Valid/Cal/Chunk12.v theories/Base/Prelude.vio theories/Valid/Normalize.vio theories/Valid/Calendar.vio
-theories/Valid/Cal/Chunk12.vos theories/Valid/Cal/Chunk12.vok theories/Valid/Cal/Chunk12.required_vos: theories/Valid/Cal/Chunk12.v theories/Base/Prelude.vos theories/Valid/Normalize.vos theories/Valid/Calendar.vos
-theories/Valid/Cal/Chunk13.vo theories/Valid/Cal/Chunk13.glob theories/Valid/Cal/Chunk13.v.beautified theories/Valid/Cal/Chunk13.required_vo: theories/Valid/Cal/Chunk13.v theories/Base/Prelude.vo theories/Valid/Normalize.vo theories/Valid/Calendar.vo
-theories/Valid/Cal/Chunk13.vio: theories/Valid/Cal/Chunk13.v theories/Base/Prelude.vio theories/Valid/Normalize.vio theories/Valid/Calendar.vio
-theories/Valid/Cal/Chunk13.vos theories/Valid/Cal/Chunk13.vok theories/Valid/Cal/Chunk13.required_vos: theories/Valid/Cal/Chunk13.v theories/Base/Prelude.vos theories/Valid/Normalize.vos theories/Valid/Calendar.vos
-theories/Valid/Cal/All.vo theories/Valid/Cal/All.glob theories/Valid/Cal/All.v.beautified theories/Valid/Cal/All.required_vo: theories/Valid/Cal/All.v theories/Base/Prelude.vo theories/Valid/Normalize.vo theories/Valid/Calendar.vo theories/Valid/Cal/Chunk00.vo theories/Valid/Cal/Chunk01.vo theories/Valid/Cal/Chunk02.vo theories/Valid/Cal/Chunk03.vo theories/Valid/Cal/Chunk04.vo theories/Valid/Cal/Chunk05.vo theories/Valid/Cal/Chunk06.vo theories/Valid/Cal/Chunk07.vo theories/Valid/Cal/Chunk08.vo theories/Valid/Cal/Chunk09.vo theories/Valid/Cal/Chunk10.vo theories/Valid/Cal/Chunk11.vo theories/Valid/Cal/Chunk12.vo theories/Valid/Cal/Chunk13.vo
-theories/Valid/Cal/All.vio: theories/Valid/Cal/All.v theories/Base/Prelude.vio theories/Valid/Normalize.vio theories/Valid/Calendar.vio theories/Valid/Cal/Chunk00.vio theories/Valid/Cal/Chunk01.vio theories/Valid/Cal/Chunk02.vio theories/Valid/Cal/Chunk03.vio theories/Valid/Cal/Chunk04.vio theories/Valid/Cal/Chunk05.vio theories/Valid/Cal/Chunk06.vio theories/Valid/Cal/Chunk07.vio theories/Valid/Cal/Chunk08.vio theories/Valid/Cal/Chunk09.vio theories/Valid/Cal/Chunk10.vio theories/Valid/Cal/Chunk11.vio theories/Valid/Cal/Chunk12.vio theories/Valid/Cal/Chunk13.vio
-theories/Valid/Cal/All.vos theories/Valid/Cal/All.vok theories/Valid/Cal/All.required_vos: theories/Valid/Cal/All.v theories/Base/Prelude.vos theories/Valid/Normalize.vos theories/Valid/Calendar.vos theories/Valid/Cal/Chunk00.vos theories/Valid/Cal/Chunk01.vos theories/Valid/Cal/Chunk02.vos theories/Valid/Cal/Chunk03.vos theories/Valid/Cal/Chunk04.vos theories/Valid/Cal/Chunk05.vos theories/Valid/Cal/Chunk06.vos theories/Valid/Cal/Chunk07.vos theories/Valid/Cal/Chunk08.vos theories/Valid/Cal/Chunk09.vos theories/Valid/Cal/Chunk10.vos theories/Valid/Cal/Chunk11.vos theories/Valid/Cal/Chunk12.vos theories/Valid/Cal/Chunk13.vos
+theories/Valid/Cal/All.vo theories/Valid/Cal/All.glob theories/Valid/Cal/All.v.beautified theories/Valid/Cal/All.required_vo: theories/Valid/Cal/All.v theories/Base/Prelude.vo theories/Valid/Normalize.vo theories/Valid/Calendar.vo
+theories/Valid/Cal/All.vio: theories/Valid/Cal/All.v theories/Base/Prelude.vio theories/Valid/Normalize.vio theories/Valid/Calendar.vio
+theories/Valid/Cal/All.vos theories/Valid/Cal/All.vok theories/Valid/Cal/All.required_vos: theories/Valid/Cal/All.v theories/Base/Prelude.vos theories/Valid/Normalize.vos theories/Valid/Calendar.vos
 theories/Valid/Normalize_proofs.vo theories/Valid/Normalize_proofs.glob theories/Valid/Normalize_proofs.v.beautified theories/Valid/Normalize_proofs.required_vo: theories/Valid/Normalize_proofs.v theories/Base/Prelude.vo theories/Valid/Gate.vo theories/Valid/Normalize.vo theories/Valid/Calendar.vo theories/Valid/Cal/All.vo
 theories/Valid/Normalize_proofs.vio: theories/Valid/Normalize_proofs.v theories/Base/Prelude.vio theories/Valid/Gate.vio theories/Valid/Normalize.vio theories/Valid/Calendar.vio theories/Valid/Cal/All.vio
 theories/Valid/Normalize_proofs.vos theories/Valid/Normalize_proofs.vok theories/Valid/Normalize_proofs.required_vos: theories/Valid/Normalize_proofs.v theories/Base/Prelude.vos theories/Valid/Gate.vos theories/Valid/Normalize.vos theories/Valid/Calendar.vos theories/Valid/Cal/All.vos
